@@ -50,7 +50,7 @@ STD = ['std Vec/VecDeque/BinaryHeap/HashSet/HashMap behave as documented', 'payl
 PROPS['C01'] = dict(
     rules=[_r('P1', re_.p1_connect, DIRECTED), _r('P2', re_.p2_disconnect_directed, DIRECTED), _r('P3', re_.p3_isolate, DIRECTED),
            _r('RM1', re_.rm1_first_match, DIRECTED), _r('SYM', re_.sym, DIRECTED), _r('ENC', re_.enc, DIRECTED), _r('OBS', re_.obs, DIRECTED), _r('OBS-Q', re_.obs_q, DIRECTED),
-           _r('IT2', rg.it2, DIRECTED), _r('ORIENT', re_.orient, DIRECTED), _r('ADJ-PRIM', re_.adj_prim, DIRECTED), _r('T1', re_.t1_try_connect, DIRECTED), _r('G3', rg.g3, DIRECTED)],
+           _r('IT2', rg.it2, DIRECTED), _r('ORIENT', re_.orient, DIRECTED), _r('ADJ-PRIM', re_.adj_prim, DIRECTED), _r('T1', re_.t1_try_connect, DIRECTED), _r('G3', rg.g3, DIRECTED), _r('LOOP-SRC', re_.loop_src, DIRECTED, r'^node::Node::isolate$', 'isolate')],
     explanation='Induction premises for the mirror invariant of the directed flavours: the invariant holds for Adjacent::new (two empty Vecs, ENC-new), is preserved by each of the '
                 'three mutators (P1 connect pushes the pair, P2 disconnect removes the pair keyed by each other, P3 isolate removes every mirror entry then clears), removals are '
                 'first-match forward scans on both sides (RM1, SYM), nothing else writes the lists (ENC a-d), and every observer reads the list its name says (OBS, IT2/ORIENT). No mutator re-acquires a node cell it still holds (G3, every pair of nodes assumed to alias): a panic or self-deadlock between the two halves of one operation would leave exactly one half applied.',
@@ -61,7 +61,7 @@ PROPS['C01'] = dict(
 PROPS['C02'] = dict(
     rules=[_r('P1', re_.p1_connect, UNDIRECTED), _r('P2u', re_.p2_disconnect_undirected, UNDIRECTED), _r('P3', re_.p3_isolate, UNDIRECTED),
            _r('RM1', re_.rm1_first_match, UNDIRECTED), _r('SYM', re_.sym, UNDIRECTED), _r('ENC', re_.enc, UNDIRECTED), _r('OBS', re_.obs, UNDIRECTED), _r('OBS-Q', re_.obs_q, UNDIRECTED),
-           _r('GET-ADJ', re_.get_adj, UNDIRECTED), _r('IT2', rg.it2, UNDIRECTED), _r('ORIENT', re_.orient, UNDIRECTED), _r('ADJ-PRIM', re_.adj_prim, UNDIRECTED), _r('T1', re_.t1_try_connect, UNDIRECTED), _r('G3', rg.g3, UNDIRECTED)],
+           _r('GET-ADJ', re_.get_adj, UNDIRECTED), _r('IT2', rg.it2, UNDIRECTED), _r('ORIENT', re_.orient, UNDIRECTED), _r('ADJ-PRIM', re_.adj_prim, UNDIRECTED), _r('T1', re_.t1_try_connect, UNDIRECTED), _r('G3', rg.g3, UNDIRECTED), _r('LOOP-SRC', re_.loop_src, UNDIRECTED, r'^node::Node::isolate$', 'isolate')],
     explanation='Same scheme for the undirected flavours: every edge is two half-edges (owner OUT list, partner IN list); connect pushes both halves, disconnect removes one half at '
                 'the caller and the complementary half at the peer (P2u), isolate removes the partner half at every neighbour (P3), the adjacency view is OUT ++ IN with the exact '
                 'index arithmetic (GET-ADJ), degree adds both lengths once (OBS). No conflicting re-acquisition between the halves of one operation (G3; a self-loop makes the peer the node itself).',
@@ -72,7 +72,7 @@ PROPS['C02'] = dict(
 PROPS['C03'] = dict(
     rules=[_r('P1', re_.p1_connect, FLAVOURS), _r('P2', re_.p2_disconnect_directed, DIRECTED), _r('P2u', re_.p2_disconnect_undirected, UNDIRECTED), _r('P3', re_.p3_isolate, FLAVOURS),
            _r('T1', re_.t1_try_connect, FLAVOURS), _r('T2', re_.t2_disconnect_result, FLAVOURS), _r('RM1', re_.rm1_first_match, FLAVOURS),
-           _r('ENC', re_.enc, FLAVOURS), _r('G3', rg.g3, FLAVOURS), _r('GET-ADJ', re_.get_adj, UNDIRECTED), _r('ADJ-PRIM', re_.adj_prim, FLAVOURS), _r('OBS', re_.obs, FLAVOURS), _r('OBS-Q', re_.obs_q, FLAVOURS)],
+           _r('ENC', re_.enc, FLAVOURS), _r('G3', rg.g3, FLAVOURS), _r('GET-ADJ', re_.get_adj, UNDIRECTED), _r('ADJ-PRIM', re_.adj_prim, FLAVOURS), _r('OBS', re_.obs, FLAVOURS), _r('OBS-Q', re_.obs_q, FLAVOURS), _r('LOOP-SRC', re_.loop_src, FLAVOURS, r'^node::Node::isolate$', 'isolate')],
     explanation='Multigraph contract of the four edge operations on all four flavours: exactly-one-edge effects (P1/P2/P3), try_connect guarded by the existence query with the right '
                 'footprint (T1), disconnect result/error set (T2), order-preserving list operations only (ENC-b: push/remove/clear; RM1 first match), one allocation per node so any '
                 'handle is the same node (ENC-d), and no conflicting re-acquisition of a node cell anywhere (G3: no RefCell double borrow panic / RwLock self-deadlock, with every pair of '
@@ -84,10 +84,10 @@ PROPS['C03'] = dict(
 PROPS['C20'] = dict(
     rules=[_r('IT1', rg.it1, FLAVOURS), _r('IT2', rg.it2, FLAVOURS), _r('IT3', rg.it3, FLAVOURS), _r('G2', rg.g2, FLAVOURS), _r('G3', rg.g3, FLAVOURS),
            _r('ROLES', rk.roles, ALLF, FLAVOURS), _r('TERM', rk.term, ALLF, FLAVOURS), _r('DISC', rk.disc, ALLF, FLAVOURS, only=('DISC-vii',)),
-           _r('ADJ-PRIM', re_.adj_prim, FLAVOURS), _r('GET-ADJ', re_.get_adj, UNDIRECTED)],
+           _r('ADJ-PRIM', re_.adj_prim, FLAVOURS), _r('GET-ADJ', re_.get_adj, UNDIRECTED), _r('LIVE-EDGE', rg.fresh, FLAVOURS)],
     explanation='A guard-lifetime statement: no iterator/builder type stores a guard (IT1); each node-iterator step takes one shared guard, reads the live entry at its position and '
                 'releases (IT2); no guard is held where a user callback runs or where an iterator is advanced, in all 48 kernels, isolate, scc, DOT and serde writers (G2); no conflicting '
-                're-acquisition anywhere (G3). Termination clause: nodes enter a frontier only when newly marked (TERM); edges are walked live from the node iterator, not from a snapshot (DISC-vii). The positional read primitives the iterators step with are `list.get(i)` -- None, not a panic, when the cursor is beyond a list that shrank (ADJ-PRIM, GET-ADJ).',
+                're-acquisition anywhere (G3). Termination clause: nodes enter a frontier only when newly marked (TERM); edges are walked live from the node iterator, not from a snapshot (DISC-vii). The positional read primitives the iterators step with are `list.get(i)` -- None, not a panic, when the cursor is beyond a list that shrank (ADJ-PRIM, GET-ADJ). A callback is handed the edge just read from the live list: no recursive descent or nested traversal runs between the iterator step and the callback call (LIVE-EDGE).',
     decides='which guards are live at every call site of every function (forward dataflow on MIR with function summaries)',
     does_not_decide='re-entrancy through payload trait impls that run under a guard in next()/find_* (E::clone, K::eq), assumed not to call back into the graph',
     assumptions=STD,
@@ -200,7 +200,7 @@ PROPS['C19'] = dict(
 )
 
 PROPS['C18'] = dict(
-    rules=[_r('MAP', rc.map_rules, FLAVOURS), _r('VIEW', rc.view_rules, FLAVOURS), _r('DOT', rc.dot_rules, FLAVOURS), _r('DOT-skel', rc.dot_skel, FLAVOURS), _r('OBS', re_.obs, FLAVOURS),
+    rules=[_r('MAP', rc.map_rules, FLAVOURS), _r('VIEW', rc.view_rules, FLAVOURS), _r('DOT', rc.dot_rules, FLAVOURS), _r('DOT-skel', rc.dot_skel, FLAVOURS), _r('LOOP-SRC', re_.loop_src, FLAVOURS, r'^Graph::(to_dot\w*|fmt_attr|write_attrs\w*)$', 'the DOT writer'), _r('OBS', re_.obs, FLAVOURS),
            _r('ENC', re_.enc, FLAVOURS, only=('ENC-d',))],
     explanation='Graph is one HashMap<K, Node> field; every container method is the expected delegation (contains/len/is_empty/get+clone/remove/iter/to_vec/Index), insert mutates only on the '
                 '"key absent" branch with (clone(key(node)), clone(node)) and returns false/true accordingly, nothing else mutates or replaces the map (MAP); roots/leaves/orphans filter '
@@ -215,7 +215,8 @@ PROPS['C18'] = dict(
 PROPS['C12'] = dict(
     rules=[_r('SER', rs.ser_rules, FLAVOURS), _r('P1', re_.p1_connect, FLAVOURS), _r('ENC-push', re_.enc_append, FLAVOURS), _r('ORIENT', re_.orient, FLAVOURS),
            _r('FRAME', re_.frame, FLAVOURS, r'as serde::Serialize>::serialize$', 'the writer (and every helper it calls)'),
-           _r('DE', rs.de_rules, FLAVOURS, only=('DE3', 'DE4'))],
+           _r('DE', rs.de_rules, FLAVOURS, only=('DE3', 'DE4')),
+           _r('LOOP-SRC', re_.loop_src, FLAVOURS, r'graph_serde|serde::Serialize>::serialize$|serde::de::Visitor>::visit_seq$|^node::Node::owned_edges$', 'the serde writer / reader')],
     explanation='Writer/reader agreement on all four flavours: the two serialize_element::<T> calls and the two next_element::<T> calls carry the same element types in the same order '
                 'inside a 2-tuple (SER1); the writer loops over all members and, per member, over an edge iterator whose list footprint is exactly the OUT list, so each edge (stored as '
                 'one OUT half) is written exactly once (SER2); the writer pushes (key(u), key(v), e) and the reader connects (get(t.0), get(t.1), t.2) (SER3); both sides use push and '
@@ -226,7 +227,8 @@ PROPS['C12'] = dict(
     assumptions=STD + ['serde data formats round-trip the element types'],
 )
 PROPS['C13'] = dict(
-    rules=[_r('DE', rs.de_rules, FLAVOURS), _r('G3', rs.g3_reader, FLAVOURS), _r('MAP', rc.map_rules, FLAVOURS), _r('P1', re_.p1_connect, FLAVOURS)],
+    rules=[_r('DE', rs.de_rules, FLAVOURS), _r('G3', rs.g3_reader, FLAVOURS), _r('MAP', rc.map_rules, FLAVOURS), _r('P1', re_.p1_connect, FLAVOURS),
+           _r('LOOP-SRC', re_.loop_src, FLAVOURS, r'graph_serde|serde::de::Visitor>::visit_seq$', 'the serde reader')],
     explanation='On visit_seq and everything it calls in-crate: each connect is dominated by the success outcome of both endpoint lookups and a failed lookup returns Err(custom(..)) with no '
                 'connect on the way (DE1); no unwrap/expect/panic/indexing/arithmetic assert in deserialize, visit_seq or their closures (DE2); the graph is built only through '
                 'Graph::insert and Node::connect with arguments taken from document elements (DE3), so the mirror/symmetry invariants follow from C01/C02 (P1) and repeated keys are '
